@@ -86,6 +86,13 @@ theorem operable_flow_control (c : Cfg) (a : Addr) (st : Nat) (hc : c.valid = tr
     makeFlowControl c a st ≠ none :=
   Safe.makeFlowControl_ne_none c a st hc
 
+/-- The inner transmit loop of `process()` stops by itself: with the fuel `process` gives it
+    (`txFuel`: remaining bytes + 2 per request + 4) the model's out-of-fuel flag is never returned,
+    i.e. the `while` loop of the code terminates for every accepted configuration. -/
+theorem operable_tx_loop_terminates (s : State) (n : Nat) (hc : s.cfg.valid = true) :
+    (txLoop s.txFuel s n).2.2.2 = false :=
+  txLoop_txFuel s n hc
+
 /-! ## Non-vacuity -/
 
 def exHalf : Half :=
@@ -129,3 +136,4 @@ end Isotp.C16
 #print axioms Isotp.C16.operable_send_physical
 #print axioms Isotp.C16.operable_make_tx_msg
 #print axioms Isotp.C16.operable_flow_control
+#print axioms Isotp.C16.operable_tx_loop_terminates
